@@ -54,7 +54,7 @@ Proof. destruct t; simpl; try discriminate; destruct x; simpl; intros; try discr
 Theorem ctx_preserved_expr en st t e : In t ctxs -> leaves_in en st t e = true ->
   inS t (eval en st e) = true /\ (has_strong en st t e = true -> eval en st e = t).
 Proof.
-  intros Ht. induction e as [l|x|a IHa b IHb|a IHa b IHb|a IHa|a IHa|tg IHt v IHv]; simpl; intros Hl.
+  intros Ht. induction e as [l|x|a IHa b IHb|a IHa b IHb|a IHa|a IHa|a IHa b IHb|tg IHt v IHv]; simpl; intros Hl.
   - split; [exact Hl | apply dt_eqb_eq].
   - split; [exact Hl | apply dt_eqb_eq].
   - apply andb_prop in Hl. destruct Hl as [La Lb]. destruct (IHa La) as [Sa Ta]. destruct (IHb Lb) as [Sb Tb].
@@ -70,6 +70,11 @@ Proof.
   - destruct (IHa Hl) as [Sa Ta]. destruct (S_to_float t _ Ht Sa) as [Sf Tf]. split; [exact Sf|]. intros Hs. apply Tf, Ta, Hs.
   - apply andb_prop in Hl. destruct Hl as [Hr La]. destruct (IHa La) as [Sa Ta].
     rewrite (S_real_of t _ Hr Sa). split; [exact Sa | exact Ta].
+  - apply andb_prop in Hl. destruct Hl as [La Lb]. destruct (IHa La) as [Sa Ta]. destruct (IHb Lb) as [Sb Tb].
+    destruct (S_closed t _ _ Ht Sa Sb) as [Sab Tab]. split; [exact Sab|].
+    intros Hs. apply Tab. apply orb_prop in Hs. apply orb_true_intro. destruct Hs as [Hs|Hs].
+    + left. rewrite (Ta Hs). apply dt_eqb_refl.
+    + right. rewrite (Tb Hs). apply dt_eqb_refl.
   - exact (IHt Hl).
 Qed.
 
@@ -129,7 +134,7 @@ Definition Inv (t : dt) (D S : list nat) (st : state) : Prop :=
 Lemma expr_sound en st D S e : In (tau en) ctxs -> Inv (tau en) D S st -> ok_expr en D e = true ->
   inP (tau en) (eval en st e) = true /\ (strong_expr en S e = true -> strongP (tau en) (eval en st e) = true).
 Proof.
-  intros Ht [HD HS]. induction e as [l|x|a IHa b IHb|a IHa b IHb|a IHa|a IHa|tg IHt v IHv]; simpl; intros Hok.
+  intros Ht [HD HS]. induction e as [l|x|a IHa b IHb|a IHa b IHb|a IHa|a IHa|a IHa b IHb|tg IHt v IHv]; simpl; intros Hok.
   - split; [exact Hok | auto].
   - split; [apply HD, Hok | apply HS].
   - apply andb_prop in Hok. destruct Hok as [Oa Ob]. destruct (IHa Oa) as [Pa Sa]. destruct (IHb Ob) as [Pb Sb].
@@ -141,6 +146,9 @@ Proof.
     destruct Hs as [Hs|Hs]; [left; apply Sa, Hs | right; apply Sb, Hs].
   - destruct (IHa Hok) as [Pa Sa]. destruct (P_unary _ _ Ht Pa) as [Pf [_ Sf]]. split; [exact Pf|]. intros Hs. apply Sf, Sa, Hs.
   - destruct (IHa Hok) as [Pa Sa]. destruct (P_unary _ _ Ht Pa) as [_ [Pr Sf]]. split; [exact Pr|]. intros Hs. apply Sf, Sa, Hs.
+  - apply andb_prop in Hok. destruct Hok as [Oa Ob]. destruct (IHa Oa) as [Pa Sa]. destruct (IHb Ob) as [Pb Sb].
+    destruct (P_closed _ _ _ Ht Pa Pb) as [Pab Sab]. split; [exact Pab|]. intros Hs. apply Sab.
+    apply orb_prop in Hs. apply orb_true_intro. destruct Hs as [Hs|Hs]; [left; apply Sa, Hs | right; apply Sb, Hs].
   - exact (IHt Hok).
 Qed.
 
@@ -211,13 +219,14 @@ Qed.
 (* ---- a mask that is cast into the data's context before any arithmetic cannot influence any dtype *)
 Lemma eval_mask_irrelevant t m m' st e : mask_guarded e = true -> eval (mkenv t m) st e = eval (mkenv t m') st e.
 Proof.
-  induction e as [l|x|a IHa b IHb|a IHa b IHb|a IHa|a IHa|tg IHt v IHv]; simpl; intros H.
+  induction e as [l|x|a IHa b IHb|a IHa b IHb|a IHa|a IHa|a IHa b IHb|tg IHt v IHv]; simpl; intros H.
   - destruct l; try reflexivity; discriminate.
   - reflexivity.
   - apply andb_prop in H. destruct H as [Ha Hb]. rewrite (IHa Ha), (IHb Hb). reflexivity.
   - apply andb_prop in H. destruct H as [Ha Hb]. rewrite (IHa Ha), (IHb Hb). reflexivity.
   - rewrite (IHa H). reflexivity.
   - rewrite (IHa H). reflexivity.
+  - apply andb_prop in H. destruct H as [Ha Hb]. rewrite (IHa Ha), (IHb Hb). reflexivity.
   - exact (IHt H).
 Qed.
 Lemma exec_mask_irrelevant t m m' b : block_guarded b = true -> forall st, exec (mkenv t m) st b = exec (mkenv t m') st b.
@@ -465,7 +474,7 @@ Definition Inv2 (t : dt) (D S : list bool) (st : state) : Prop :=
 Lemma expr2_sound en st D S e : In (tau en) ctxs -> Inv2 (tau en) D S st -> ok_expr2 en D e = true ->
   inP (tau en) (eval en st e) = true /\ (strong_expr2 en S e = true -> strongP (tau en) (eval en st e) = true).
 Proof.
-  intros Ht [HD HS]. induction e as [l|x|a IHa b IHb|a IHa b IHb|a IHa|a IHa|tg IHt v IHv]; simpl; intros Hok.
+  intros Ht [HD HS]. induction e as [l|x|a IHa b IHb|a IHa b IHb|a IHa|a IHa|a IHa b IHb|tg IHt v IHv]; simpl; intros Hok.
   - split; [exact Hok | auto].
   - split; [apply HD, Hok | apply HS].
   - apply andb_prop in Hok. destruct Hok as [Oa Ob]. destruct (IHa Oa) as [Pa Sa]. destruct (IHb Ob) as [Pb Sb].
@@ -477,6 +486,9 @@ Proof.
     destruct Hs as [Hs|Hs]; [left; apply Sa, Hs | right; apply Sb, Hs].
   - destruct (IHa Hok) as [Pa Sa]. destruct (P_unary _ _ Ht Pa) as [Pf [_ Sf]]. split; [exact Pf|]. intros Hs. apply Sf, Sa, Hs.
   - destruct (IHa Hok) as [Pa Sa]. destruct (P_unary _ _ Ht Pa) as [_ [Pr Sf]]. split; [exact Pr|]. intros Hs. apply Sf, Sa, Hs.
+  - apply andb_prop in Hok. destruct Hok as [Oa Ob]. destruct (IHa Oa) as [Pa Sa]. destruct (IHb Ob) as [Pb Sb].
+    destruct (P_closed _ _ _ Ht Pa Pb) as [Pab Sab]. split; [exact Pab|]. intros Hs. apply Sab.
+    apply orb_prop in Hs. apply orb_true_intro. destruct Hs as [Hs|Hs]; [left; apply Sa, Hs | right; apply Sb, Hs].
   - exact (IHt Hok).
 Qed.
 
@@ -559,7 +571,7 @@ Definition InvX (t : dt) (D X : list nat) (st : state) : Prop :=
 Lemma exprX_sound en st D X e : In (tau en) ctxs -> InvX (tau en) D X st -> ok_expr en D e = true ->
   inP (tau en) (eval en st e) = true /\ (exact_expr en X e = true -> eval en st e = tau en).
 Proof.
-  intros Ht [HD HX]. induction e as [l|x|a IHa b IHb|a IHa b IHb|a IHa|a IHa|tg IHt v IHv]; simpl; intros Hok.
+  intros Ht [HD HX]. induction e as [l|x|a IHa b IHb|a IHa b IHb|a IHa|a IHa|a IHa b IHb|tg IHt v IHv]; simpl; intros Hok.
   - split; [exact Hok | apply dt_eqb_eq].
   - split; [apply HD, Hok | apply HX].
   - apply andb_prop in Hok. destruct Hok as [Oa Ob]. destruct (IHa Oa) as [Pa Xa]. destruct (IHb Ob) as [Pb Xb].
@@ -571,6 +583,9 @@ Proof.
   - destruct (IHa Hok) as [Pa Xa]. destruct (P_unary _ _ Ht Pa) as [Pf _]. split; [exact Pf|]. intros Hs.
     rewrite (Xa Hs). apply to_float_ctx, Ht.
   - destruct (IHa Hok) as [Pa _]. destruct (P_unary _ _ Ht Pa) as [_ [Pr _]]. split; [exact Pr | discriminate].
+  - apply andb_prop in Hok. destruct Hok as [Oa Ob]. destruct (IHa Oa) as [Pa Xa]. destruct (IHb Ob) as [Pb Xb].
+    destruct (P_closed _ _ _ Ht Pa Pb) as [Pab _]. split; [exact Pab|]. intros Hs. apply andb_prop in Hs. destruct Hs as [Ha Hb].
+    apply (P_exact _ _ _ Ht Pa Pb). left. apply Xa, Ha.
   - exact (IHt Hok).
 Qed.
 
@@ -705,7 +720,7 @@ Definition Inv2X (t : dt) (D X : list bool) (st : state) : Prop :=
 Lemma expr2X_sound en st D X e : In (tau en) ctxs -> Inv2X (tau en) D X st -> ok_expr2 en D e = true ->
   inP (tau en) (eval en st e) = true /\ (exact_expr2 en X e = true -> eval en st e = tau en).
 Proof.
-  intros Ht [HD HX]. induction e as [l|x|a IHa b IHb|a IHa b IHb|a IHa|a IHa|tg IHt v IHv]; simpl; intros Hok.
+  intros Ht [HD HX]. induction e as [l|x|a IHa b IHb|a IHa b IHb|a IHa|a IHa|a IHa b IHb|tg IHt v IHv]; simpl; intros Hok.
   - split; [exact Hok | apply dt_eqb_eq].
   - split; [apply HD, Hok | apply HX].
   - apply andb_prop in Hok. destruct Hok as [Oa Ob]. destruct (IHa Oa) as [Pa Xa]. destruct (IHb Ob) as [Pb Xb].
@@ -717,6 +732,9 @@ Proof.
   - destruct (IHa Hok) as [Pa Xa]. destruct (P_unary _ _ Ht Pa) as [Pf _]. split; [exact Pf|]. intros Hs.
     rewrite (Xa Hs). apply to_float_ctx, Ht.
   - destruct (IHa Hok) as [Pa _]. destruct (P_unary _ _ Ht Pa) as [_ [Pr _]]. split; [exact Pr | discriminate].
+  - apply andb_prop in Hok. destruct Hok as [Oa Ob]. destruct (IHa Oa) as [Pa Xa]. destruct (IHb Ob) as [Pb Xb].
+    destruct (P_closed _ _ _ Ht Pa Pb) as [Pab _]. split; [exact Pab|]. intros Hs. apply andb_prop in Hs. destruct Hs as [Ha Hb].
+    apply (P_exact _ _ _ Ht Pa Pb). left. apply Xa, Ha.
   - exact (IHt Hok).
 Qed.
 
@@ -784,6 +802,9 @@ Qed.
 Example all_exact2_example :
   let p1 := mkprog [(0, In_); (1, Op (Var 0) (Into (Var 0) bare)); (2, RealOf (Var 1))] [(1, Op (Var 1) PyF)] [("*", Var 1); ("*", Var 2)] in
   ext_exact_any p1 [0] = true /\ ext_exact_any p1 [0; 1] = false /\ ext_ok_any p1 = true /\
+  ext_exact_any (mkprog [(0, In_); (1, RealOf (Var 0)); (2, Op (Var 0) (Var 1)); (3, Alt (Var 0) (Var 1))] [] [("*", Var 2); ("*", Var 3)]) [0] = true /\
+  ext_exact_any (mkprog [(0, In_); (1, RealOf (Var 0)); (2, Op (Var 0) (Var 1)); (3, Alt (Var 0) (Var 1))] [] [("*", Var 2); ("*", Var 3)]) [1] = false /\
+  ext_ok_any (mkprog [(0, In_); (1, RealOf (Var 0)); (2, Op (Var 0) (Var 1)); (3, Alt (Var 0) (Var 1))] [] [("*", Var 2); ("*", Var 3)]) = true /\
   all_exact2 (mkenv F32 B) p1 [0] = true /\ all_exact2 (mkenv C64 B) p1 [1] = false /\
   ext_exact_any (mkprog [(0, In_); (1, Op (Var 0) (Leaf (LConst F32)))] [] [("*", Var 1)]) [0] = false /\
   prog_ok2 (mkenv C64 C64) (mkprog [(0, In_); (1, Into (Leaf (LConst F32)) (Var 0))] [] [("*", Var 1)]) = true /\
